@@ -736,10 +736,15 @@ def run_claims(pid, rep, prog, tier):
     for n in range(1, n_max + 1):
         for kinds in scripts(n):
             inputs.append(("script=%s" % "/".join(kinds), mk_setup(kinds)))
+    if tier == "quick" and pid == "C14":
+        # one three-test document also on every change: what the limit leaves for a test case depends on all time spent before it — the
+        # time between two runs shows first in the third
+        for kinds in (["Code", "Code", "Code"], ["Code", "Code", "Timeout"]):
+            inputs.append(("script=%s" % "/".join(kinds), mk_setup(kinds)))
     h = e2.Harness("executor_%s" % {"C14": "timeouts", "C15": "skip_code", "C05": "unknown_padding", "C18": "scrut_test_variable"}[pid], drive, inputs, POSTS[pid],
                    native="execute_all", judge=None,
                    describe=POSTS[pid].__doc__ + ": see module docstring",
-                   bound="documents of 1..%d test cases; every script {Code,Detached}* [Timeout|Skipped|Unknown|runner error]; all exit "
+                   bound="documents of 1..%d test cases (quick, C14: plus two scripts of 3 test cases); every script {Code,Detached}* [Timeout|Skipped|Unknown|runner error]; all exit "
                          "codes, skip codes (test / document / default), per-test and document timeouts (absent / 0 / any value), "
                          "any non-decreasing clock" % n_max)
 
@@ -799,6 +804,17 @@ def run_claims(pid, rep, prog, tier):
         replay_script_timeout(rep, ht, rest)
         e2.record(rep, ht, rest)
     if pid == "C14":
+        # end to end: time that passes between two runs (here: a `wait`) is charged to the document's limit
+        cfg = lambda wait_ns: {"detached": None, "keep_crlf": None, "strip_ansi_escaping": None, "skip_document_code": None, "output_stream": None, "timeout": None,
+                               "wait": {"timeout": str(wait_ns), "path": None} if wait_ns else None, "environment": []}
+        w = {"tests": [{"config": cfg(0)}, {"config": cfg(700 * 10 ** 6)}, {"config": cfg(0)}], "defaults": cfg(0),
+             "script": [{"status": "Code", "code": 0}] * 3, "total_timeout": str(10 ** 9), "default_skip": None}
+        nk, nv = NAT.call("execute_all", [w])
+        handed = [int(r_["timeout"]) if r_.get("timeout") is not None else None for r_ in nv.get("runs", [])] if nk == "return" else None
+        if not handed or len(handed) != 3 or handed[2] is None or handed[2] > 400 * 10 ** 6:
+            rep.violation("timeout:time-between-runs-not-charged", "document limit 1 s, second test case waits 700 ms before it runs: the third test case's process is given %s ns "
+                          "(at most 300 ms are left)" % (handed[2] if handed and len(handed) == 3 else handed),
+                          {"kind": "eval", "fn": "execute_all", "args": [w], "native": [nk, nv], "harness": "end-to-end sample"})
         from props import c16
         c16.run_timeout_seconds(rep, tier)
     if pid in ("C14", "C18"):
